@@ -155,6 +155,15 @@ def c02_cells(tier="quick"):
                                                                         for t in ("t0", "t1", "t2")])))
         cells.append((f"one_worker3.{tag}", base(4, mk(), workers=W[:1], requirements=[
             {"task": t, "resource": "w0"} for t in ("t0", "t1", "t2")])))
+    # a selection that lists a cumulative worker next to a plain one
+    cells.append(("selection_over_cumulative", base(3, [fx("t0", 2), fx("t1", 2), fx("t2", 2)], workers=W[:1],
+                                                    cumulative=[{"name": "cu", "size": 2}],
+                                                    selections=[{"id": "s0", "workers": ["cu", "w0"], "n": 1, "kind": "exact"},
+                                                                {"id": "s1", "workers": ["cu", "w0"], "n": 1, "kind": "exact"},
+                                                                {"id": "s2", "workers": ["cu", "w0"], "n": 1, "kind": "exact"}],
+                                                    requirements=[{"task": "t0", "resource": "s0"},
+                                                                  {"task": "t1", "resource": "s1"},
+                                                                  {"task": "t2", "resource": "s2"}])))
     # delayed / early-out / dynamic assignments
     for di, eo in ((1, 0), (0, 1), (1, 1), (2, 0)):
         cells.append((f"delayed.di{di}.eo{eo}", base(6, [fx("t0", 3), fx("t1", 2)], workers=W[:1], requirements=[
